@@ -5,7 +5,7 @@
 # Prints one line per check. The copy lives under /root/scratch/mt and is reused (warm builds).
 set -e
 PATCH=$(readlink -f "$1"); shift
-MT=/root/scratch/mt
+MT=${MT:-/root/scratch/mt}
 mkdir -p $MT
 if [ ! -d $MT/repo/.git ] && [ ! -f $MT/repo/.git ]; then
   git -C /repo worktree prune
